@@ -1,4 +1,5 @@
 import TflModel.Lemmas.PwlProj
+import TflModel.Driver.PwlProj
 /-!
 # C04 — the PWLCalibration weight constraint returns keypoint outputs meeting all its limits
 
@@ -68,7 +69,7 @@ theorem finalisation_from_any_input (c : Cfg) (hc : CfgOk c) (L : List Rat) (hl 
 /-- **T4 (clamps, near end), iterations ≥ 1, no convexity.** For an increasing calibrator with
 `clamp_min` the first keypoint output equals `output_min` exactly; for a decreasing one with
 `clamp_max` it equals `output_max` exactly.  By T1 that output is the minimum resp. maximum. -/
-theorem clamp_hit_partial (c : Cfg) (hc : CfgOk c) (hcv : c.conv = 0) (L : List Rat) (it : Nat) (hit : 1 ≤ it)
+theorem clamp_near_end (c : Cfg) (hc : CfgOk c) (hcv : c.conv = 0) (L : List Rat) (it : Nat) (hit : 1 ≤ it)
     (b : Rat) (hs : List Rat) (out : Rat × List Rat) (h : projectAll c L it b hs = .ok out) :
     (c.mono = 1 → c.minC = .clamped → out.1 = c.omin) ∧
     (c.mono = -1 → c.maxC = .clamped → out.1 = c.omax) := by
@@ -106,16 +107,62 @@ theorem clamp_hit_partial (c : Cfg) (hc : CfgOk c) (hcv : c.conv = 0) (L : List 
     exact clipB_fix _ _ _ _ _ (fun e => hc.bnd ((unclamp_bound _).mp e) (by rw [hcl]; simp))
       (fun _ => le_rfl)
 
-/-- **T4, full statement (not proved at full strength).** Both ends: with clamps and without
-convexity, for iterations ≥ 1, the minimum output equals `output_min` when `clamp_min` and the
-maximum equals `output_max` when `clamp_max`.  `clamp_hit_partial` proves the end that is the bias;
-the far end (`bias + Σ heights`) needs the Dykstra invariant `bias + Σ z_k ≥ output_max` across
-iterations and is covered by the correspondence + oracle only (0 failures, see evidence). -/
+/-- **T4, both ends, both directions (full statement).** With clamps and without convexity, for
+iterations ≥ 1: the first keypoint output (`bias`) and the last one (`bias + Σ heights`) sit exactly
+on the clamped bound of their side. -/
 def ClampBothEnds : Prop :=
   ∀ (c : Cfg), CfgOk c → c.conv = 0 → ∀ (L : List Rat) (it : Nat), 1 ≤ it → ∀ (b : Rat) (hs : List Rat)
     (out : Rat × List Rat), hs ≠ [] → projectAll c L it b hs = .ok out →
     (c.mono = 1 → (c.minC = .clamped → out.1 = c.omin) ∧ (c.maxC = .clamped → out.1 + rsum out.2 = c.omax)) ∧
     (c.mono = -1 → (c.maxC = .clamped → out.1 = c.omax) ∧ (c.minC = .clamped → out.1 + rsum out.2 = c.omin))
+
+/-- **T4 (clamps hit exactly), proved at full strength.** The far end uses the Dykstra invariant
+`FarInv` (`far_step`): after the BOUNDS projection of an iteration the far end is exactly on the
+clamped bound (`projectBoundsInc_clamped_max`); the rolled-back MONOTONICITY step of the same
+iteration cannot lower the sum of the heights because the uniform BOUNDS shift never grows from one
+iteration to the next (`hd ≤ δ`) and heights with a positive last MONOTONICITY change are zero
+(`rsum_after_mono_ge`); the finalisation's cumulative-sum clip then puts the far end back exactly
+(`clipDiffs_last`).  The decreasing calibrator is the mirror image (`body_refl`).
+`hs ≠ []` (at least two keypoints) is what `verify_hyperparameters` guarantees. -/
+theorem clamp_hit : ClampBothEnds := by
+  intro c hc hcv L it hit b hs out hne h
+  have hnear := clamp_near_end c hc hcv L it hit b hs out h
+  exact ⟨fun hm => ⟨hnear.1 hm, fun hx => far_end_inc c L it hit b hs hne hm hcv hx out h⟩,
+    fun hm => ⟨hnear.2 hm, fun hx => far_end_dec c hc L it hit b hs hne hm hcv hx out h⟩⟩
+
+/-- the hypothesis `hs ≠ []` of `clamp_hit` is needed (and is what `verify_hyperparameters`
+guarantees: the layer rejects fewer than two keypoints): a one-row kernel has a single output and
+cannot sit on two different clamps; model and real code both return `[0]` for bounds `[0, 1]`. -/
+theorem clamp_far_needs_two_keypoints :
+    projectAll ⟨1, 0, 0, 1, .clamped, .clamped⟩ [] 1 (1/2) [] = .ok (0, []) := by
+  decide +kernel
+
+/-- **T4 in the words of the property:** with `clamp_min` (and monotonicity, no convexity,
+iterations ≥ 1) the MINIMUM keypoint output equals `output_min` exactly — `output_min` is one of
+the outputs and no output is below it; likewise the maximum with `clamp_max`. -/
+theorem clamp_hit_min_max (c : Cfg) (hc : CfgOk c) (hcv : c.conv = 0) (hm : c.mono ≠ 0) (L : List Rat)
+    (hl : AllPos L) (it : Nat) (hit : 1 ≤ it) (b : Rat) (hs : List Rat) (hne : hs ≠ [])
+    (out : Rat × List Rat) (h : projectAll c L it b hs = .ok out) :
+    (c.minC = .clamped → c.omin ∈ outputs out.1 out.2 ∧ ∀ y ∈ outputs out.1 out.2, c.omin ≤ y) ∧
+    (c.maxC = .clamped → c.omax ∈ outputs out.1 out.2 ∧ ∀ y ∈ outputs out.1 out.2, y ≤ c.omax) := by
+  have hb := bounds_hold c hc L hl it b hs out h
+  have hcl := clamp_hit c hc hcv L it hit b hs out hne h
+  have hm1 : c.mono = 1 ∨ c.mono = -1 := by
+    rcases hc.mono with e | e | e
+    · exact absurd e hm
+    · exact Or.inl e
+    · exact Or.inr e
+  constructor
+  · intro hx
+    refine ⟨?_, fun y hy => (hb y hy).1 (by rw [hx]; simp)⟩
+    rcases hm1 with e | e
+    · rw [← (hcl.1 e).1 hx]; exact first_mem_outputs _ _
+    · rw [← (hcl.2 e).2 hx]; exact last_mem_outputs _ _
+  · intro hx
+    refine ⟨?_, fun y hy => (hb y hy).2 (by rw [hx]; simp)⟩
+    rcases hm1 with e | e
+    · rw [← (hcl.1 e).2 hx]; exact last_mem_outputs _ _
+    · rw [← (hcl.2 e).1 hx]; exact first_mem_outputs _ _
 
 /-- **F-C04-b (counter-witness).** With `num_projection_iterations = 0` the Dykstra loop is
 skipped and the finalisation never moves an end point onto a clamped bound: increasing
@@ -186,5 +233,33 @@ theorem wired_cfgOk (mono conv : Int) (hm : mono = 0 ∨ mono = 1 ∨ mono = -1)
   · intro h; exact absurd rfl h
   · intro _ h; exact absurd rfl h
   · intro _ _; cases cmin <;> cases cmax <;> exact hb _ _ rfl rfl
+
+/-- **The driver op the correspondence uses is `projectAll`.** For a well-formed column
+`bias :: heights` and bounds that `verify_hyperparameters` accepts, the value printed by the driver op
+`pwlp.call` (`Tfl.Driver.PwlProj.callResult`, compared with the real
+`PWLCalibrationConstraints(...)(w)` on every correspondence case) is exactly `projectAll` on the
+configuration wired by `convert_all_constraints` — the function all theorems above are about. -/
+theorem driver_call_is_projectAll (m cv : Int) (lo hi : Option Rat) (cmin cmax : Bool) (ls : List Rat)
+    (it : Nat) (b : Rat) (hs : List Rat) (hb : ∀ x y, lo = some x → hi = some y → x ≤ y) :
+    Tfl.Driver.PwlProj.callResult m cv lo hi cmin cmax ls it (b :: hs) =
+      some (projectAll ⟨m, cv, (convertAllConstraints lo hi cmin cmax).1,
+        (convertAllConstraints lo hi cmin cmax).2.1, (convertAllConstraints lo hi cmin cmax).2.2.1,
+        (convertAllConstraints lo hi cmin cmax).2.2.2⟩ ls it b hs) := by
+  unfold Tfl.Driver.PwlProj.callResult Tfl.Driver.PwlProj.splitCol constraintsCall
+  simp only [Option.map_some]
+  cases lo with
+  | none => simp
+  | some x => cases hi with
+    | none => simp
+    | some y =>
+      have := hb x y rfl rfl
+      simp [not_lt.mpr this]
+
+/-- and what it rejects: inverted bounds give `ValueError`, as `verify_hyperparameters` does -/
+theorem driver_call_rejects_inverted (m cv : Int) (x y : Rat) (cmin cmax : Bool) (ls : List Rat)
+    (it : Nat) (b : Rat) (hs : List Rat) (h : y < x) :
+    Tfl.Driver.PwlProj.callResult m cv (some x) (some y) cmin cmax ls it (b :: hs) =
+      some (.error .valueError) := by
+  simp [Tfl.Driver.PwlProj.callResult, Tfl.Driver.PwlProj.splitCol, constraintsCall, h]
 
 end Tfl.C04
